@@ -111,3 +111,7 @@ PROPS["C20"] = {
     "monitor_tags": ["C20"],
     "explanation": "barrier and release theorems over the store model's queue; released waiters per batch compared with the real Wait",
 }
+
+PROPS["C16"]["go_tests"] = ["TestVerifStore", "TestVerifCountersConcurrent"]
+PROPS["C16"]["impl_only_traces"] = ["counters"]
+PROPS["C16"]["rule"] = STORE_RULE + "; plus a concurrent run: groups of 8 goroutines released together on the same absent key of a loading cache (leaders and joiners), mixed with plain Gets, then quiescent comparison of Stats/Len/EstimatedSize with the harness's own tally"
